@@ -357,6 +357,24 @@ func C05(c *core.Ctx) {
 				if d := delegate(fn); d != fn && k == "" {
 					k = lockKinds(d, "fibStrategyRWMutex")
 				}
+				if k == "" {
+					// the lock is taken by a helper that returns with it held
+					core.Instrs(fn, func(in ssa.Instruction) {
+						cl, ok := in.(*ssa.Call)
+						if !ok || cl.Call.StaticCallee() == nil {
+							return
+						}
+						for l := range core.AcquireSummary(cl.Call.StaticCallee()) {
+							if strings.HasSuffix(l, ".fibStrategyRWMutex") {
+								if strings.HasPrefix(l, "W:") {
+									k = "Lock"
+								} else if k == "" {
+									k = "RLock"
+								}
+							}
+						}
+					})
+				}
 				locks[tn][m] = k
 			}
 		}
